@@ -1,0 +1,13 @@
+//go:build verif
+
+package schedule
+
+// VerifYield, when set by a verification harness, is called at every point of
+// compositeSchedule.Next/Left at which another goroutine may interleave. It may block.
+var VerifYield func(sched interface{}, site string)
+
+func verifYield(s *compositeSchedule, site string) {
+	if f := VerifYield; f != nil {
+		f(s, site)
+	}
+}
